@@ -281,14 +281,14 @@ def run(ctx):
     if ctx.shard == 0:
         for form in REGRESSION_FORMS:
             do_form(ctx, rng, form, PATHS, 0, 200)
-    nforms = ctx.scale(120, 4000)
+    nforms = ctx.scale(120, 12_000)
     for i in range(nforms):
         form = MC.gen_form(rng)
         do_form(ctx, rng, form, ("events", "sync"), 12 if ctx.quick else 30, 120 if ctx.quick else 160)
         if i < 2:
             ctx.sample("form", {"form": form})
     # bigger contents (several KB) with sparse cuts through every path
-    for i in range(ctx.scale(40, 1500)):
+    for i in range(ctx.scale(40, 6000)):
         form = MC.gen_form(rng, max_parts=3)
         for p in form["parts"]:
             p["content"] = b"".join(MC.gen_content(rng, form["boundary"], p["filename"] is None, maxn=20) for _ in range(rng.randrange(1, 40)))
